@@ -272,6 +272,34 @@ pub fn run(ctx: &Ctx) -> Report {
     total.merge(st);
     total.exhaustive_parts.push("every unsupported test, action, format directive (first/middle/last position, after \\c) and the positional option, alone, negated, in dead branches and nested".into());
     crate::fuzzrun::replay_policy_trees(&mut total, judge);
+    // supported expressions with many resources (0..72, ~127, ~255, 1000 distinct matchers before
+    // plain or framed printers; many destinations): they compile whatever the numbers become
+    let mut stm = Stats::new();
+    let mut ms: Vec<usize> = (0..=72).step_by(3).collect();
+    ms.extend([13, 14, 15, 29, 30, 31, 125, 126, 127, 128, 129, 253, 254, 255, 256, 257, 1000]);
+    for m in ms {
+        for tail in [vec![Act::Print], vec![Act::Print0], vec![Act::FPrint("a".into()), Act::FPrint0("b".into())], vec![Act::Printf(vec![FEl::F(Fld::NameNoStart)]), Act::FPrintf("c".into(), vec![FEl::F(Fld::Name), FEl::E(Esc::Newline)])]] {
+            let mut e = E::T(Tst::True);
+            for i in 0..m {
+                e = E::or(e, E::T(if i % 2 == 0 { Tst::Name(format!("m{i}")) } else { Tst::IPath(format!("*/m{i}/*")) }));
+            }
+            for a in &tail {
+                e = E::and(e, E::A(a.clone()));
+            }
+            let v = judge(&e);
+            stm.record(&v, stable_hash(&e), true, || json!({"kind": "many-resources", "matchers": m, "tree": term::encode_expr(&e)}));
+        }
+    }
+    let mut e = E::A(Act::FPrint("d0".into()));
+    for i in 1..300 {
+        e = E::and(e, E::A(if i % 2 == 0 { Act::FPrint(format!("d{i}")) } else { Act::FPrint0(format!("d{i}")) }));
+        if [100, 127, 128, 254, 255, 256, 299].contains(&i) {
+            let v = judge(&e);
+            stm.record(&v, stable_hash(&e), true, || json!({"kind": "many-resources", "destinations": i + 1, "tree": term::encode_expr(&e)}));
+        }
+    }
+    stm.samples.truncate(1);
+    total.merge(stm);
     // interaction triples: three leaf kinds (supported and unsupported) under every operator skeleton
     let tr = crate::combo::run_triples(ctx.seed, &crate::combo::all_kinds(), ctx.tier.pick(32, 2), judge, case_json);
     total.merge(tr);
